@@ -32,6 +32,10 @@ TYPES = {
     'string3': (dict(type='string', constraints=dict(maxLength=3)), 'ab', 'cd', 'toolong'),
     'array': (dict(type='array'), [1, 2], '[3, 4]', 'notjson'),
     'intmin': (dict(type='integer', constraints=dict(minimum=0)), 3, '4', -1),
+    # the invalid value EQUALS a valid one of another class (True == 1 == 1.0, same hash): a cast decided per value, never per "equal" value
+    'numbool': (dict(type='number'), 1.0, '1.0', True),
+    'boolone': (dict(type='boolean'), True, 'true', 1),
+    'intbool': (dict(type='integer'), 1, '1', True),
     # required: the invalid value of this setting is NULL itself (cases with a valid-null cell in such a column are not instantiated)
     'intreq': (dict(type='integer', constraints=dict(required=True)), 5, '7', None),
 }
@@ -93,8 +97,15 @@ def replay_case(item):
             row['f2'] = None
             return True
         return False
+    def custom5_default(res_name, row, i, e, field=None):
+        # the same 5-argument handler, its last parameter written with a default (validate(<row check>) calls handlers without a field)
+        return custom5(res_name, row, i, e, field)
+    if pol == 'custom5' and len(c['tbl']) % 2 == 1:
+        custom5_used = custom5_default
+    else:
+        custom5_used = custom5
     handler = {'raise': sv.raise_exception, 'drop': sv.drop, 'ignore': sv.ignore, 'clear': sv.clear,
-               'custom4': custom4, 'custom5': custom5, 'custom5r': custom5r}[pol]
+               'custom4': custom4, 'custom5': custom5_used, 'custom5r': custom5r}[pol]
     root = tempfile.mkdtemp(prefix='c14-', dir=tlc.WORK_ROOT)
     try:
         anyf = [('rid', 'integer'), ('f1', 'any'), ('f2', 'any'), ('f1x', 'string')]
